@@ -1,4 +1,4 @@
-//! U-map: CodeMapper::new on symbolic frequency tables (<= 4 entries): chars with non-zero
+//! U-map: CodeMapper::new on symbolic frequency tables (<= 3 entries): chars with non-zero
 //! frequency map bijectively onto 0..alphabet_size, everything else (absent, or beyond the
 //! table) gives None, and every code stays below the block length the builder derives from it.
 #[cfg(not(kani))]
@@ -7,18 +7,18 @@ use daachorse::charwise::verif as cv;
 
 crate::lookup! { new_bijective }
 
-// any() order: freqs: [u32; 4], len: usize, c: char
+// any() order: freqs: [u32; 3], len: usize, c: char
 #[cfg_attr(kani, kani::proof)]
 #[cfg_attr(kani, kani::unwind(7))]
 pub fn new_bijective() {
-    let freqs: [u32; 4] = kani::any();
+    let freqs: [u32; 3] = kani::any();
     let len: usize = kani::any();
-    kani::assume(len <= 4);
+    kani::assume(len <= 3);
     let m = cv::mapper_new(&freqs[..len]);
     let asz = cv::mapper_alphabet_size(&m);
     let mut nz = 0u32;
     let mut i = 0;
-    while i < 4 {
+    while i < 3 {
         if i < len && freqs[i] != 0 {
             nz += 1;
         }
@@ -26,9 +26,9 @@ pub fn new_bijective() {
     }
     assert!(asz == nz, "U-map: alphabet_size != number of used chars");
     let block = asz.next_power_of_two().max(2);
-    let mut seen = [false; 4];
+    let mut seen = [false; 3];
     let mut i = 0;
-    while i < 4 {
+    while i < 3 {
         if i < len {
             let ch = unsafe { char::from_u32_unchecked(i as u32) };
             let g = cv::mapper_get(&m, ch);
@@ -47,6 +47,7 @@ pub fn new_bijective() {
     let c: char = kani::any();
     kani::assume(c as usize >= len);
     assert!(cv::mapper_get(&m, c).is_none(), "U-map: char beyond the table is mapped");
-    kani::cover!(nz == 3, "U-map: three used chars");
+    kani::cover!(nz == 3, "U-map: three used chars (opt)");
+    kani::cover!(nz == 2, "U-map: two used chars");
     core::mem::forget(m);
 }
